@@ -194,7 +194,7 @@ def dtype_pinned(ctx: Ctx, ev: Event) -> Optional[bool]:
     return None
 
 
-def r17_3(ctx: Ctx):
+def r17_3(ctx: Ctx, only=None):
     rid = 'R17.3'
     ctx.rule(rid, 'scratch typestate: on every path of every public query the first access to a scratch attribute '
                   'is a rebind to a fresh array of pinned float dtype, or (under the N=1 guard) a store into an '
@@ -211,7 +211,7 @@ def r17_3(ctx: Ctx):
     defs: Dict[str, List] = {a: [] for a in scr}
     substore_first: Dict[str, List] = {a: [] for a in scr}
     n_paths = 0
-    methods = queries(ctx) + [ev.methods['__init__']]
+    methods = [q for q in queries(ctx) if only is None or q.name in only] + [ev.methods['__init__']]
     for q in methods:
         selfv = var(q.param_names[0])
         Nfield = attr(selfv, 'numberOfFloatVariables')
